@@ -175,7 +175,7 @@ void beginCase() {
     g_raw_id = LogAddPrintfFunc(rawSink, nullptr);
 }
 
-void worker(int run, int tag, std::vector<Msg> msgs) {
+void worker(int run, int tag, std::vector<Msg> msgs, unsigned pace_us) {
     long tid = syscall(SYS_gettid);
     {
         std::unique_lock<std::mutex> lk(g_mx);
@@ -183,6 +183,7 @@ void worker(int run, int tag, std::vector<Msg> msgs) {
         g_cv.wait(lk, [run] { return g_go > run; });
     }
     for (const Msg &m : msgs) {
+        if (pace_us) usleep(pace_us * (20 + (m.seed * 37 + m.line) % 160) / 100);     // 0.2 .. 1.8 x pace: lets the pipe's timed flush fire
         if (m.kind == 'n') { LogPrintfFunc(m.mod, m.func, m.file, m.line, m.level, 1, nullptr); continue; }
         std::string body = genText(m.len, m.seed);
         if (m.kind == 'p') LogPrintfFunc(m.mod, m.func, m.file, m.line, m.level, 1, "%s", body.c_str());
@@ -442,10 +443,11 @@ int main() {
             if (g_sinks[k - 1].is_file) listFiles((int)k, g_sinks[k - 1]);
             else if (g_sinks[k - 1].other) listStream((int)k, g_sinks[k - 1]);
             else OUT << "P off " << k << "\n";
-        } else if ((op == "run" || op == "runc") && w.size() >= 2 && w[1].size() <= 2 && vh::to_u64(w[1], n) && n >= 1 && n <= 8) {
+        } else if ((op == "run" || op == "runc" || op == "runp") && w.size() >= 2 && w[1].size() <= 2 && vh::to_u64(w[1], n) && n >= 1 && n <= 8) {
             // runc <T> <A> <action>*A <spec>*: the main thread reconfigures sinks WHILE the threads log
             struct CAct { char type; size_t k; std::string mod; int lv; uint64_t n; };
-            std::vector<CAct> acts; bool ok = true; size_t first = 2; uint64_t nA = 0;
+            std::vector<CAct> acts; bool ok = true; size_t first = 2; uint64_t nA = 0, pace = 0;
+            if (op == "runp") { ok = w.size() >= 3 && w[2].size() <= 4 && vh::to_u64(w[2], pace) && pace >= 1 && pace <= 5000; first = 3; }
             if (op == "runc") {
                 ok = w.size() >= 3 && w[2].size() <= 2 && vh::to_u64(w[2], nA) && nA <= 16 && w.size() >= 3 + nA;
                 first = 3 + nA;
@@ -472,7 +474,7 @@ int main() {
             for (auto &s : g_sinks) { if (s.rec) s.rec->got.clear(); if (s.enabled) s.dirty = true; }
             g_raw.clear();
             { std::lock_guard<std::mutex> lk(g_mx); g_done = 0; }
-            for (int t = 0; t < T; ++t) g_threads.emplace_back(worker, run, run * 8 + t, per[t]);
+            for (int t = 0; t < T; ++t) g_threads.emplace_back(worker, run, run * 8 + t, per[t], (unsigned)pace);
             {
                 std::unique_lock<std::mutex> lk(g_mx);
                 g_cv.wait(lk, [T] { return g_done == T; });       // all registered
